@@ -1114,7 +1114,7 @@ fn configs(flavours: &[Flavour], policies: &[Pol], mem: &Tri, ttl: &Tri, selftes
     for &flavour in flavours {
         for &policy in policies {
             for limit in [None, Some(1), Some(2), Some(3)] {
-                for t in [None, Some(TTL)] {
+                for t in [None, Some(0), Some(TTL)] {
                     if (t.is_none() && !ttl.0) || (t.is_some() && !ttl.1) {
                         continue;
                     }
